@@ -114,6 +114,11 @@ fn ops_show(ops: &[bool]) -> String {
 /// `junk`: one more peer has queued three ill-formed requests (a single frame without delimiter, an envelope with
 /// nothing after its delimiter, a delimiter alone): a recv that fails on one of them must leave the lock-step
 /// state exactly as it was.
+/// routing frames in front of the delimiter of peer p's requests
+fn hops(p: usize) -> Vec<Vec<u8>> {
+    (0..p % 3).map(|h| format!("hop{}-{}", p, h).into_bytes()).collect()
+}
+
 fn rep_sequence(ops: &[bool], peers: usize, junk: bool) -> Verdict {
     world::reset(world::WorldCfg { nested_env: false, yields: false, select: false, policy: 0, coop: false });
     let conns: Vec<e3::RawConn> = (0..peers + junk as usize).map(|i| e3::raw_conn(&format!("req{}", i))).collect();
@@ -126,7 +131,12 @@ fn rep_sequence(ops: &[bool], peers: usize, junk: bool) -> Verdict {
             continue;
         }
         for j in 0..3 {
-            c.send(&rc::encode_message(&[vec![], format!("c{}q{}", p, j).into_bytes()]));
+            // peer p's requests come through p % 3 intermediaries (peer 0: a plain REQ client; peer 1: one routing frame
+            // in front of the delimiter; peer 2: two), so that one REP socket serves both kinds of client
+            let mut req = hops(p);
+            req.push(vec![]);
+            req.push(format!("c{}q{}", p, j).into_bytes());
+            c.send(&rc::encode_message(&req));
         }
     }
     let viol = std::rc::Rc::new(std::cell::RefCell::new(Vec::<(String, String)>::new()));
@@ -162,12 +172,19 @@ fn rep_sequence(ops: &[bool], peers: usize, junk: bool) -> Verdict {
                     (None, Err(e)) => viol2.borrow_mut().push(("rep/refusal-does-not-return-message".into(), format!("call #{}: {}", i, e3::err_class(e)))),
                     (Some(p), Ok(())) => {
                         let g = grew();
-                        let want = rc::encode_message(&[vec![], m[0].clone(), m[1].clone()]).len();
+                        let mut reply = hops(p);
+                        reply.extend([vec![], m[0].clone(), m[1].clone()]);
+                        let want_bytes = rc::encode_message(&reply);
+                        let want = want_bytes.len();
                         for (q, gq) in g.iter().enumerate() {
                             if (q == p && *gq != want) || (q != p && *gq != 0) {
                                 viol2.borrow_mut().push(("rep/reply-to-wrong-connection".into(), format!("call #{}: reply to the request of peer {} changed the wires by {:?} bytes (expected {} on peer {} only)", i, p, g, want, p)));
                                 break;
                             }
+                        }
+                        let wrote = world::tap(conns2[p].from_lib)[taps_before[p]..].to_vec();
+                        if g[p] == want && wrote != want_bytes {
+                            viol2.borrow_mut().push(("rep/reply-not-the-one-for-this-request".into(), format!("call #{}: the reply to the request of peer {} went out as {:?}, expected {}", i, p, rc::decode_stream(&wrote, false).messages().iter().map(|m| rc::show_frames(m)).collect::<Vec<_>>(), rc::show_frames(&reply))));
                         }
                         current = None;
                     }
